@@ -13,6 +13,8 @@ CLAIMS = {
  "C17": "The 18 newtype_enum! tables are regenerated from the source and proved equal (as finite maps) to a frozen IANA table; Display/Debug text is characterised for every integer by a general lemma on first-match lookup; SignatureScheme bit-splitting proved for all 16-bit values; key_bits proved for every named curve and every unregistered group; all of it also run exhaustively against the implementation.",
  "C12": "The compiled registry is dumped completely (all 65536 ids, four lookup routes, iteration order, derived sizes) from the implementation built from the current tree and becomes the Coq model; it is proved equal to scripts/tls-ciphersuites.txt (regenerated) for every id, to contain a frozen copy of today's IANA table, to have agreeing routes, unique names with an exact from_name for every string, consistent sizes and name-token rules; each obligation is re-checked by the kernel on every run.",
  "C07": "TlsRecordsParser is modelled as init/step over the record-content model; proved: the k-way split theorem by induction over fragments (any cut points, any k, buffer = concatenation so far), the three refusals leave the state unchanged, the 10 MiB buffer bound as an invariant over all operation sequences, idle = fresh as a bisimulation up to the unobservable stale buffer; the debug assertion's absence and both limits are re-read from the source each run; histories (all 2-way cuts, random k-way splits, foreign types, nocopy, reset, reuse, oversize) are run on the real parser with slice regions classified through the verification hook.",
+ "C03": "Generic many1(complete(p)) round-trip lemma (list-as-fuel induction) instantiated for ChangeCipherSpec, alert and (parameterised by C04's round-trip) handshake records, with any tail on which the message parser stops; application data and heartbeat(+padding) decoded exactly; one-step = two-step as a corollary of the C02 characterisation; rejection of unknown types, empty and first-bad payloads; the dispatch table is re-read from the source and compared with the expected one on every run.",
+ "C16": "tls_parser_many and parse_dtls_plaintext_records are proved equal to an explicit 'iterate the single-record parser while it succeeds' specification for every input (using progress >= 1 byte, the generic no-Failure theorem and the Safe theorems), fail-iff-first-fails as a corollary, tls_parser = parse_tls_plaintext by definition; the check additionally chains the implementation's own single-record parser over each input and compares with its multi-record parser.",
 }
 def chk(pid):
     return {"property_id": pid, "quick_cmd": "./check %s --tier quick" % pid, "thorough_cmd": "./check %s --tier thorough" % pid,
